@@ -26,6 +26,7 @@ import (
 	"sort"
 	"strings"
 	"sync"
+	"time"
 
 	"verif/harness/lib/hist"
 	"verif/harness/lib/kvx"
@@ -147,6 +148,9 @@ func (e *env) concRun(ops []*cop, order []int, ch func(int, []sched.Info) int, m
 	res := &concResult{outcomes: make([]concOutcome, len(ops))}
 	s := sched.New()
 	s.Stagger = true
+	if e.settle > 0 {
+		s.Settle = e.settle
+	}
 	e.kv.ResetLog()
 	e.kv.ResetFaults()
 	if mode != kvx.NoFault {
@@ -306,9 +310,10 @@ func (e *env) concJudge(family string, before secs, ops []*cop, order []int, mod
 			relation = "same-section"
 		}
 	}
+	withReload := false
 	for _, o := range ops {
 		if o.sec == "" {
-			relation += "+reload"
+			withReload = true
 		}
 	}
 	faultClass := "no-fault"
@@ -317,6 +322,7 @@ func (e *env) concJudge(family string, before secs, ops []*cop, order []int, mod
 	}
 	r.Distinct(fmt.Sprintf("%s|%s|%v|%s|%s@%d|%s", family, strings.Join(names, "||"), order, res.traceKey, modeNames[mode], faultAt, shape))
 	r.Count(family+"_"+faultClass, 1)
+	names = append(names, "("+faultClass+")")
 	if res.injected > 0 {
 		r.Count("faults_injected_in_race_"+modeNames[mode], 1)
 	}
@@ -361,7 +367,7 @@ func (e *env) concJudge(family string, before secs, ops []*cop, order []int, mod
 	nb, na, nr := normalised(before), normalised(res.after), normalised(res.reloaded)
 	eb, ea := exact(before), exact(res.after)
 	for _, sec := range sectionNames {
-		var acc, failed, all []*cop
+		var acc, failed, applied, all []*cop
 		servedJudged := true
 		for i, o := range ops {
 			if o.sec != sec {
@@ -376,22 +382,26 @@ func (e *env) concJudge(family string, before secs, ops []*cop, order []int, mod
 				}
 			} else if oc.Faulted != "" {
 				failed = append(failed, o)
+				if oc.Faulted == "lost-ack" && withReload {
+					// the write was applied: a reload that follows legitimately serves it
+					applied = append(applied, o)
+				}
 			}
 		}
 		if len(all) == 0 {
-			if eb[sec] != ea[sec] {
-				e.violate(keyOf("concurrent-updates", "untouched-section-changed", relation, faultClass),
+			if (withReload && nb[sec] != na[sec]) || (!withReload && eb[sec] != ea[sec]) {
+				e.violate(keyOf("concurrent-updates", "untouched-section-changed", relation),
 					fmt.Sprintf("overlapping %v (outcomes %s) changed the served %s section that none of them updates: %s", names, shape, sec, fieldDiff(eb[sec], ea[sec])),
 					wit(map[string]interface{}{"section": sec, "served_before": before[sec], "served_after": res.after[sec]}))
 			}
 			if nb[sec] != nr[sec] {
-				e.violate(keyOf("concurrent-updates", "untouched-section-reloads-differently", relation, faultClass),
+				e.violate(keyOf("concurrent-updates", "untouched-section-reloads-differently", relation),
 					fmt.Sprintf("after overlapping %v (outcomes %s) the %s section, which none of them updates, reloads differently: %s", names, shape, sec, fieldDiff(nb[sec], nr[sec])),
 					wit(map[string]interface{}{"section": sec}))
 			}
 			continue
 		}
-		servedAllowed := foldAll(nb[sec], acc, nil)
+		servedAllowed := foldAll(nb[sec], acc, applied)
 		if servedJudged {
 			r.Count("serial_order_checks_served", 1)
 			if !servedAllowed[na[sec]] {
@@ -400,7 +410,7 @@ func (e *env) concJudge(family string, before secs, ops []*cop, order []int, mod
 				if len(acc) > 0 {
 					clause, what = "served-differs-from-every-serial-order", "an accepted update is missing from (or a refused one present in) what is served"
 				}
-				e.violate(keyOf("concurrent-updates", clause, relation, faultClass),
+				e.violate(keyOf("concurrent-updates", clause, relation),
 					fmt.Sprintf("overlapping %v, outcomes %s (a accepted, r rejected, f failed write): the served %s section is not what any order of the accepted updates gives - %s. served: %s; allowed: %v",
 						names, shape, sec, what, clip(na[sec]), keysOf(servedAllowed)),
 					wit(map[string]interface{}{"section": sec, "served_before": before[sec], "served_after": res.after[sec], "reloaded_after": res.reloaded[sec], "allowed_served": keysOf(servedAllowed)}))
@@ -412,14 +422,14 @@ func (e *env) concJudge(family string, before secs, ops []*cop, order []int, mod
 		reloadAllowed := foldAll(nb[sec], acc, failed)
 		r.Count("serial_order_checks_reloaded", 1)
 		if !reloadAllowed[nr[sec]] {
-			e.violate(keyOf("concurrent-updates", "accepted-change-not-reloaded", relation, faultClass),
+			e.violate(keyOf("concurrent-updates", "accepted-change-not-reloaded", relation),
 				fmt.Sprintf("overlapping %v, outcomes %s (a accepted, r rejected, f failed write): the reloaded %s section is not what any order of the accepted updates (plus any of the failed ones) gives. reloaded: %s; allowed: %v",
 					names, shape, sec, clip(nr[sec]), keysOf(reloadAllowed)),
 				wit(map[string]interface{}{"section": sec, "served_before": before[sec], "served_after": res.after[sec], "reloaded_after": res.reloaded[sec], "allowed_reloaded": keysOf(reloadAllowed)}))
 			continue
 		}
 		if !anyFault && servedJudged && na[sec] != nr[sec] {
-			e.violate(keyOf("concurrent-updates", "reload-differs-from-served", relation, faultClass),
+			e.violate(keyOf("concurrent-updates", "reload-differs-from-served", relation),
 				fmt.Sprintf("overlapping %v, all accepted or rejected without any write failure: the %s section reloads differently from what is served (served -> reloaded): %s", names, sec, fieldDiff(na[sec], nr[sec])),
 				wit(map[string]interface{}{"section": sec, "served_after": res.after[sec], "reloaded_after": res.reloaded[sec]}))
 		}
@@ -440,6 +450,7 @@ var raceFaults = []struct {
 // state as it was. mk rebuilds the participants (payloads are functions of the starting state).
 func (e *env) grid(family string, ops []*cop, orders [][]int, restore func(), sample bool) {
 	e.caseNo++
+	restore()
 	before := servedSecs(e.s)
 	for _, order := range orders {
 		for _, f := range raceFaults {
@@ -469,4 +480,212 @@ func (e *env) grid(family string, ops []*cop, orders [][]int, restore func(), sa
 // reloadCop is the participant that reloads the serving options from storage.
 func reloadCop(do func() (bool, string)) *cop {
 	return &cop{Name: "Reload", Desc: "serving PersistOptions reloaded from storage (campaignLeader)", st: &step{Site: "Reload", do: do}}
+}
+
+// ---- an update parked at its config write while the options are reloaded ----
+
+// inflightRun: ops = {x, mid, y}. x runs up to its first write of the config key and parks; mid
+// runs to completion on the calling goroutine (in-place reload / leader resign + re-campaign); y is
+// started and runs up to its first config write (or ends, or - should pd ever serialise updates -
+// blocks behind x); then the parked writes are released, y's first when yFirst. No settle timing
+// is involved unless y blocks.
+func (e *env) inflightRun(ops []*cop, yFirst bool, mode kvx.FaultMode, faultAt int) *concResult {
+	res := &concResult{outcomes: make([]concOutcome, 3)}
+	e.kv.ResetLog()
+	e.kv.ResetFaults()
+	if mode != kvx.NoFault {
+		n := 0
+		e.kv.FailAllWrites(mode, func(kind, key string) bool {
+			if key == configKey {
+				n++
+				return n == faultAt
+			}
+			return false
+		})
+	}
+	var mu sync.Mutex
+	watch := map[int64]chan struct{}{}
+	arrived := make(chan int64, 4)
+	e.kv.Gate = func(kind, key string) {
+		if kind != "Save" || key != configKey {
+			return
+		}
+		g := hist.Goid()
+		mu.Lock()
+		ch, ok := watch[g]
+		delete(watch, g) // only the first config write of a participant parks
+		mu.Unlock()
+		if ok {
+			arrived <- g
+			<-ch
+		}
+	}
+	e.kv.Done = nil
+	goids := make([]int64, 3)
+	rel := make([]chan struct{}, 3)
+	done := make([]chan struct{}, 3)
+	parked := make([]bool, 3)
+	finished := make([]bool, 3)
+	run := func(i int) {
+		o := concOutcome{Op: ops[i].Name}
+		func() {
+			defer func() {
+				if p := recover(); p != nil {
+					o.Panicked = fmt.Sprint(p)
+				}
+			}()
+			o.Accepted, o.Msg = ops[i].st.do()
+		}()
+		mu.Lock()
+		res.outcomes[i] = o
+		mu.Unlock()
+	}
+	start := func(i int) {
+		ready := make(chan struct{})
+		done[i] = make(chan struct{})
+		rel[i] = make(chan struct{})
+		go func() {
+			g := hist.Goid()
+			mu.Lock()
+			goids[i] = g
+			watch[g] = rel[i]
+			mu.Unlock()
+			close(ready)
+			run(i)
+			close(done[i])
+		}()
+		<-ready
+	}
+	// wait until participant i parked or finished; false after the timeout (blocked / stuck)
+	wait := func(i int, d time.Duration) bool {
+		t := time.After(d)
+		for {
+			select {
+			case g := <-arrived:
+				for j := range goids {
+					if goids[j] == g {
+						parked[j] = true
+					}
+				}
+				if parked[i] {
+					return true
+				}
+			case <-done[i]:
+				finished[i] = true
+				return true
+			case <-t:
+				return false
+			}
+		}
+	}
+	release := func(i int) bool {
+		if !parked[i] || finished[i] {
+			return true
+		}
+		parked[i] = false
+		res.trace = append(res.trace, sched.Info{Worker: i, Kind: "Save", Key: configKey})
+		res.traceKey += ops[i].Name + ";"
+		close(rel[i])
+		select {
+		case <-done[i]:
+			finished[i] = true
+			return true
+		case <-time.After(60 * time.Second):
+			return false
+		}
+	}
+	fail := func(why string) *concResult {
+		// let everything end, then report a harness problem
+		for i := range rel {
+			if rel[i] != nil && parked[i] {
+				close(rel[i])
+			}
+		}
+		res.schedErr = fmt.Errorf("in-flight run: %s", why)
+		e.kv.Gate = nil
+		e.kv.ResetFaults()
+		return res
+	}
+	start(0)
+	if !wait(0, 60*time.Second) {
+		return fail("first update neither reached its config write nor ended")
+	}
+	// the reload / leader change runs to completion while x is parked - unless it has to wait for
+	// x (an implementation that serialises reloads with updates): then x goes first
+	midDone := make(chan struct{})
+	go func() { run(1); close(midDone) }()
+	select {
+	case <-midDone:
+	case <-time.After(e.midWait):
+		res.blocked++
+		if !release(0) {
+			return fail("released update did not end")
+		}
+		select {
+		case <-midDone:
+		case <-time.After(60 * time.Second):
+			return fail("reload did not end")
+		}
+	}
+	start(2)
+	yReady := wait(2, e.blockedWait)
+	if !yReady {
+		res.blocked++ // y waits for x: only x can go first
+	}
+	order := []int{0, 2}
+	if yFirst && yReady {
+		order = []int{2, 0}
+	}
+	for _, i := range order {
+		if i == 2 && !yReady && !parked[2] && !finished[2] {
+			if !wait(2, 60*time.Second) {
+				return fail("second update stuck")
+			}
+		}
+		if !release(i) {
+			return fail("released update did not end")
+		}
+	}
+	for _, i := range []int{0, 2} {
+		if !finished[i] {
+			select {
+			case <-done[i]:
+			case <-time.After(60 * time.Second):
+				return fail("update did not end")
+			}
+		}
+	}
+	e.kv.Gate = nil
+	res.injected = e.kv.Injected()
+	e.kv.ResetFaults()
+	for _, x := range e.kv.Log() {
+		if x.Kind == "Save" && x.Key == configKey && x.Fault != "" {
+			for i, g := range goids {
+				if g == x.Goid && i != 1 {
+					res.outcomes[i].Faulted = x.Fault
+				}
+			}
+		}
+	}
+	res.after = servedSecs(e.s)
+	res.reloaded, res.relErr = e.reload()
+	return res
+}
+
+// inflightGrid: both release orders x every fault placement, from one restored state.
+func (e *env) inflightGrid(family string, x, mid, y *cop, restore func()) {
+	e.caseNo++
+	restore()
+	before := servedSecs(e.s)
+	ops := []*cop{x, mid, y}
+	x.noServedClause, y.noServedClause = true, false
+	for _, yFirst := range []bool{false, true} {
+		for _, f := range raceFaults {
+			restore()
+			res := e.inflightRun(ops, yFirst, f.mode, f.at)
+			e.concJudge(family, before, ops, []int{0, 1, 2}, f.mode, f.at, res)
+		}
+	}
+	x.noServedClause = false
+	restore()
 }
